@@ -81,6 +81,9 @@ def run(name, tier="quick", ids=None):
         print("patch does not apply: " + out)
         return 2
     results = {}
+    # evidence files belong to runs on the unchanged tree: keep them aside while a seeded change is applied
+    evdir = os.path.join(VERIF, "evidence")
+    saved = {pid: open(os.path.join(evdir, pid + ".json")).read() for pid in ids if os.path.exists(os.path.join(evdir, pid + ".json"))}
     try:
         for pid in ids:
             t0 = time.time()
@@ -101,6 +104,8 @@ def run(name, tier="quick", ids=None):
             print(pid, tier, "rc=%d" % rc, "; ".join(results[pid]["lines"])[:400], detail[:300])
     finally:
         sh(["git", "-C", REPO, "checkout", "--", "."])
+        for pid, txt in saved.items():
+            open(os.path.join(evdir, pid + ".json"), "w").write(txt)
         rc, out = sh(["git", "-C", REPO, "status", "--porcelain"])
         if out.strip():
             print("WARNING: /repo not clean after undo:\n" + out)
